@@ -326,6 +326,11 @@ impl<S: Read + Write> Client<S> {
         self.x224.shutdown()
     }
 
+    /// True if another payload could be read without waiting for the socket
+    pub fn has_buffered_data(&self) -> bool {
+        self.x224.has_buffered_data()
+    }
+
     /// This function check if the client
     /// version protocol choose is 5+
     pub fn is_rdp_version_5_plus(&self) -> bool {
